@@ -271,9 +271,16 @@ def guard_end(text, p):
         elif c in ';{}' and depth == 0:
             break
     head = text[k + 1:p]
+    hands_guard_on = False
     if re.search(r'\b(if|while)\s+let\b|\bmatch\b', head):
         i = text.find('{', p)
-        return block_end(text, i) if i >= 0 else len(text)
+        end = block_end(text, i) if i >= 0 else len(text)
+        # `let x = match ACQ { Ok(g) => g, ... };`: an arm hands the guard itself on to the binding, it lives as long as x does
+        m = re.search(r'\blet\b[^=;]*=\s*match\b[^{;]*$', head)
+        if m and i >= 0 and re.search(r'\bOk\s*\(\s*(?:mut\s+)?([A-Za-z_][A-Za-z0-9_]*)\s*\)\s*=>\s*\1\s*[,}]', text[i:end + 1]):
+            hands_guard_on = True
+        else:
+            return end
     # innermost enclosing block
     depth, j, enclosing = 0, p, len(text)
     while j < len(text):
@@ -285,8 +292,16 @@ def guard_end(text, p):
                 break
             depth -= 1
         j += 1
-    if re.search(r'\blet\b', head):
+    if hands_guard_on:
         return enclosing
+    if re.search(r'\blet\b', head):
+        # `let g = ACQ;` / `let g = ACQ?;` / `.unwrap()` / `.expect(..)` / `.map_err(..)?` bind the guard; any other method called on it
+        # consumes a temporary that dies at the end of the statement
+        rest = text[p:]
+        m = re.match(r'(?:\s*\.\s*(?:read|write|lock|try_read|try_write|try_lock)\s*\(\s*\)|\s*\.?\s*[A-Za-z_][A-Za-z0-9_]*\s*\(\s*\))?'
+                     r'(?:\s*\?|\s*\.\s*(?:unwrap|expect|map_err|unwrap_or_else)\s*\((?:[^()]|\([^()]*\))*\))*\s*([;.])', rest)
+        if m is None or m.group(1) == ';':
+            return enclosing
     depth, j = 0, p
     while j < enclosing:
         if text[j] in '({':
